@@ -91,6 +91,32 @@ fn word_of_kind(r: &mut Rng, kind: u64) -> u64 {
             (if len == 64 { u64::MAX } else { (1u64 << len) - 1 }) << a
         }
         8 => *r.pick(&[0u64, u64::MAX, 1, 1 << 63, 0x5555_5555_5555_5555, 0xAAAA_AAAA_AAAA_AAAA, 0x8000_0000_0000_0001]),
+        10 => {
+            // bits only in one byte (top byte half of the time): the byte-finding loop must skip empty bytes
+            let b = r.range(1, 255);
+            let pos = if r.chance(1, 2) { 7 } else { r.below(8) };
+            b << (pos * 8)
+        }
+        11 => {
+            // every byte is 0x00, 0xFF or random: cumulative counts land exactly on byte boundaries
+            let mut w = 0u64;
+            for i in 0..8 {
+                let b = match r.below(3) {
+                    0 => 0u64,
+                    1 => 0xFF,
+                    _ => r.below(256),
+                };
+                w |= b << (i * 8);
+            }
+            w
+        }
+        12 => {
+            // n opens followed by closes, then random tail: matches land at 2n-1-p (around bit 63 for n≈32)
+            let n = r.range(1, 63);
+            let low = (1u64 << n) - 1;
+            let tail_from = (2 * n).min(63);
+            low | ((r.next_u64() >> tail_from) << tail_from)
+        }
         _ => {
             // balanced-ish parenthesis word: random walk biased upward
             let mut w = 0u64;
@@ -127,8 +153,53 @@ pub fn gen(tier: Tier, r: &mut Rng, emit: &mut dyn FnMut(String)) {
             }
         }
     }
+    // every single-bit and two-bit word, k around the count
+    for i in 0..64u32 {
+        for j in i..64u32 {
+            let x = (1u64 << i) | (1u64 << j);
+            for k in 0..=2u32 {
+                emit(format!("C02 sel {x:x} {k}"));
+            }
+        }
+    }
+    // all-ones / one-hole words: every k (the PDEP `k >= 63` mask branch, last byte of the broadword loop)
+    for hole in [64u32, 0, 7, 8, 31, 32, 56, 62, 63] {
+        let x = if hole == 64 { u64::MAX } else { !(1u64 << hole) };
+        for k in 0..=66u32 {
+            emit(format!("C02 sel {x:x} {k}"));
+        }
+        emit(format!("C02 sel {x:x} {}", u32::MAX));
+    }
+    // n opens then closes: open at p matches at 2n-1-p; every p for every n, so the match sweeps
+    // across bit 63 (inside / exactly at 63 / beyond the word); also the same word shifted up
+    for nn in 1..=64u32 {
+        let x = if nn == 64 { u64::MAX } else { (1u64 << nn) - 1 };
+        emit(format!("C02 fuc {x:x}"));
+        emit(format!("C02 fuc {:x}", !x));
+        for p in 0..=65u32 {
+            if tier != Tier::Quick || p < 2 || p + 3 > nn || (2 * nn).wrapping_sub(p + 1).abs_diff(63) <= 2 || p >= 62 {
+                emit(format!("C02 fcw {x:x} {p}"));
+            }
+        }
+    }
+    // block popcounts at the u8-lane extremes (all-ones halves, 0xFF bytes facing each other)
+    for pat in 0..16u32 {
+        let blk: Vec<u64> = (0..8)
+            .map(|i| match (pat >> (i % 4)) & 1 {
+                1 => u64::MAX,
+                _ => {
+                    if pat & 8 != 0 && i >= 4 {
+                        0xFF00_FF00_FF00_FF00
+                    } else {
+                        0
+                    }
+                }
+            })
+            .collect();
+        emit(format!("C02 blk {}", hex_words(&blk)));
+    }
     for i in 0..n {
-        let x = word_of_kind(r, (i % 10) as u64);
+        let x = word_of_kind(r, (i % 13) as u64);
         let pc = x.count_ones() as u64;
         let k = match r.below(8) {
             0 => pc,
@@ -140,10 +211,14 @@ pub fn gen(tier: Tier, r: &mut Rng, emit: &mut dyn FnMut(String)) {
         emit(format!("C02 sel {x:x} {k}"));
         emit(format!("C02 pop {x:x}"));
         emit(format!("C02 fuc {x:x}"));
-        let p = if r.chance(1, 16) { r.range(60, 70) } else { r.below(64) };
+        let p = match r.below(16) {
+            0 => r.range(60, 70),
+            1 => *r.pick(&[0u64, 1, 61, 62, 63, 64, u32::MAX as u64]),
+            _ => r.below(64),
+        };
         emit(format!("C02 fcw {x:x} {p}"));
         if i % 4 == 0 {
-            let kind = r.below(10);
+            let kind = r.below(13);
             let blk: Vec<u64> = (0..8).map(|_| if r.chance(1, 8) { 0 } else { word_of_kind(r, kind) }).collect();
             emit(format!("C02 blk {}", hex_words(&blk)));
         }
